@@ -119,6 +119,106 @@ func genC14(dir, tier string, seed int64) {
 		count("rank_pair", fmt.Sprintf("%d-%d", len(sa), len(sb)))
 	}
 	rw.close()
+	// rows of more than 10000 elements behind the stretched axis, with block sizes that do not divide a power
+	// of two (copying by doubling / in fixed-size chunks goes wrong only here); decided in Go against the
+	// index formula out[i] = src[i restricted to the axes where src has an extent above 1]
+	big := goOnlyResult{Stream: "C14_large", Rule: "both helpers on four shape pairs whose broadcast result has 10000..21000 elements ((1,3)x(3414,1), (3414,1)x(1,3), (1,60,50)x(4,1,1), (2,1,7)x(1,1500,1)): every element of both results equals the source element given by the index formula; shapes equal the broadcast shape", Violations: []string{}}
+	ref := func(src tensor.Tensor, out []int) []int32 {
+		ss := src.Shape()
+		d := src.Data().([]int32)
+		n := numel(out)
+		res := make([]int32, n)
+		idx := make([]int, len(out))
+		for f := 0; f < n; f++ {
+			rem := f
+			for k := len(out) - 1; k >= 0; k-- {
+				idx[k] = rem % out[k]
+				rem /= out[k]
+			}
+			off, stride := 0, 1
+			for k := len(ss) - 1; k >= 0; k-- {
+				i := idx[len(out)-len(ss)+k]
+				if ss[k] == 1 {
+					i = 0
+				}
+				off += i * stride
+				stride *= ss[k]
+			}
+			res[f] = d[off]
+		}
+		return res
+	}
+	for _, pr := range [][2][]int{{{1, 3}, {3414, 1}}, {{3414, 1}, {1, 3}}, {{1, 60, 50}, {4, 1, 1}}, {{2, 1, 7}, {1, 1500, 1}}} {
+		for _, which := range []string{"MultidirBroadcast", "UnidirBroadcast"} {
+			big.N++
+			a, b := mkT(tensor.Int32, pr[0], iota64(numel(pr[0]), 100)), mkT(tensor.Int32, pr[1], iota64(numel(pr[1]), 500))
+			func() {
+				defer func() {
+					if rec := recover(); rec != nil {
+						big.Violations = append(big.Violations, fmt.Sprintf("%s %v x %v panicked: %v", which, pr[0], pr[1], rec))
+					}
+				}()
+				var na, nb tensor.Tensor
+				var err error
+				rk := len(pr[0])
+				if len(pr[1]) > rk {
+					rk = len(pr[1])
+				}
+				out := make([]int, rk)
+				okUni := len(pr[1]) <= len(pr[0])
+				for k := 0; k < rk; k++ {
+					ea, eb := 1, 1
+					if i := k - (rk - len(pr[0])); i >= 0 {
+						ea = pr[0][i]
+					}
+					if i := k - (rk - len(pr[1])); i >= 0 {
+						eb = pr[1][i]
+					}
+					out[k] = ea
+					if eb > ea {
+						out[k] = eb
+					}
+					if eb != ea && eb != 1 {
+						okUni = false // B may only be stretched in the unidirectional case
+					}
+				}
+				if which == "MultidirBroadcast" {
+					na, nb, err = ops.MultidirectionalBroadcast(a, b)
+				} else {
+					na, nb, err = ops.UnidirectionalBroadcast(a, b)
+					if !okUni {
+						if err == nil {
+							big.Violations = append(big.Violations, fmt.Sprintf("%s %v x %v: accepted although A would have to be stretched", which, pr[0], pr[1]))
+						}
+						return
+					}
+				}
+				if err != nil {
+					big.Violations = append(big.Violations, fmt.Sprintf("%s %v x %v: refused: %v", which, pr[0], pr[1], err))
+					return
+				}
+				for i, p := range []struct {
+					got tensor.Tensor
+					src tensor.Tensor
+				}{{na, a}, {nb, b}} {
+					want := ref(p.src, out)
+					got, okd := p.got.Data().([]int32)
+					if !okd || fmt.Sprint([]int(p.got.Shape())) != fmt.Sprint(out) || len(got) != len(want) {
+						big.Violations = append(big.Violations, fmt.Sprintf("%s %v x %v: result %d has shape %v, want %v", which, pr[0], pr[1], i, p.got.Shape(), out))
+						return
+					}
+					for f := range want {
+						if got[f] != want[f] {
+							big.Violations = append(big.Violations, fmt.Sprintf("%s %v x %v: result %d differs from the index formula at flat index %d: %d, want %d", which, pr[0], pr[1], i, f, got[f], want[f]))
+							return
+						}
+					}
+				}
+			}()
+		}
+	}
+	big.Distinct = big.N
+	meta.GoOnly = append(meta.GoOnly, big)
 }
 
 func cw2(c *caseWriter) *caseWriter { return c }
